@@ -16,6 +16,7 @@ import Hts.Lemmas.CacheContract
 import Hts.Lemmas.CacheReadAhead
 import Hts.Lemmas.CacheSum
 import Hts.Lemmas.CachedReaderVsC02
+import Hts.Lemmas.CachedReaderC02Sim
 namespace Hts.Props.C03
 open Hts.Model.Cache Hts.Spec.CacheContract Hts.Model.CachedReader
 
@@ -340,6 +341,118 @@ theorem uncached_baseline_agrees_with_c02_model_bounded :
     Hts.Model.CachedReader.VsC02.agreeOver Hts.Model.CachedReader.VsC02.alphabetB
       Hts.Model.CachedReader.VsC02.fileB 3 = true :=
   ⟨Hts.Model.CachedReader.VsC02.agree_fileA, Hts.Model.CachedReader.VsC02.agree_fileB⟩
+
+/-! ### the uncached baseline IS C02's reader, and the cached reader refines the flat-file specification
+
+General (unbounded) version of the bounded agreement above.  `ofB F` is the C03 file (members with absolute offsets)
+of a C02 file `F` (members in order); `flatOp` maps a call to the flat specification's operation (cache calls map to
+nothing), `Plain` says a call attaches no cache and seeks to a non-negative offset; `simOuts r0 ops` are the outputs
+of C02's reader model and `flatOuts (flatOf F) init ops` the outputs `Hts.Spec.Flat` prescribes, both in this
+model's vocabulary (bytes as numbers, error class, LastChunk; `ReadByte` returns no byte together with an error).
+Hypotheses as in C02: well-formed file (`WF`: positive member sizes, < 2^16 bytes per member), non-empty (the
+constructor succeeds), every Seek goes to a member start plus an offset within that member (`ValidOps`).
+Code variants: every `Cfg` with `failReset` (repair C09-2; `Cfg.repaired` is one). -/
+
+section Flat
+open Hts.Model.CachedReader.C02
+
+/-- **Simulation.**  For every well-formed file and every valid history without cache calls, this model run with no
+cache attached returns exactly the bytes, error class and `LastChunk` of C02's reader model `Hts.Model.Bgzf.Reader`
+(any number of calls; the two models' different loop bounds are related inside the proof). -/
+theorem uncached_baseline_is_c02_reader (cfg : Cfg) (hcfg : cfg.failReset = true) (o : CacheOps σ)
+    (F : Hts.Model.Bgzf.File) (hwf : Hts.Model.Bgzf.WF F) (r0 : Hts.Model.Bgzf.Reader)
+    (h0 : Hts.Model.Bgzf.Reader.new F = .ok r0) (ops : List (Op σ)) (hp : ∀ op ∈ ops, Plain op)
+    (hv : Hts.Spec.Flat.ValidOps (Hts.Model.Bgzf.layoutOf F) (ops.filterMap flatOp)) :
+    outputs cfg o (ofB F) ops = .ok (simOuts r0 ops) := by
+  obtain ⟨C0, n1, n2⟩ := newReader_sim (cfg := cfg) o hwf h0
+  obtain ⟨C', hrun⟩ := run_sim hcfg o hwf ops C0 r0 _ n2 (Hts.Model.Bgzf.sim_new h0) hp hv
+  simp only [outputs, n1, hrun]
+  simp
+
+/-- … hence the uncached baseline returns what the flat-file specification prescribes -/
+theorem uncached_baseline_refines_flat (cfg : Cfg) (hcfg : cfg.failReset = true) (o : CacheOps σ)
+    (F : Hts.Model.Bgzf.File) (hwf : Hts.Model.Bgzf.WF F) (r0 : Hts.Model.Bgzf.Reader)
+    (h0 : Hts.Model.Bgzf.Reader.new F = .ok r0) (ops : List (Op σ)) (hp : ∀ op ∈ ops, Plain op)
+    (hv : Hts.Spec.Flat.ValidOps (Hts.Model.Bgzf.layoutOf F) (ops.filterMap flatOp)) :
+    outputs cfg o (ofB F) ops = .ok (flatOuts (Hts.Model.Bgzf.flatOf F) Hts.Spec.Flat.init ops) := by
+  rw [uncached_baseline_is_c02_reader cfg hcfg o F hwf r0 h0 ops hp hv,
+    simOuts_eq_flatOuts hwf ops r0 _ (Hts.Model.Bgzf.sim_new h0) hv]
+
+/-- **The cached reader refines the flat-file specification.**  For every cache satisfying the contract (LRU, Random,
+StatsRecorder, mixtures — see above), attached, detached and re-attached at arbitrary points, every well-formed file and
+every valid history: whatever the CACHED reader returns is what `Hts.Spec.Flat` prescribes for the history with the
+cache calls removed — the bytes of the flat copy at the logical position, `io.EOF` exactly at the end of the data,
+`LastChunk` = the virtual offsets around the bytes.  (Composition of `cached_refines_uncached`, the simulation above
+and C02's `read_refines_flat`/`sim_step`.) -/
+theorem cached_refines_flat (o : CacheOps σ) (wf : σ → Prop) (ct : Contract o wf) (cfg : Cfg)
+    (hcfg : cfg.failReset = true) (F : Hts.Model.Bgzf.File) (hwf : Hts.Model.Bgzf.WF F)
+    (r0 : Hts.Model.Bgzf.Reader) (h0 : Hts.Model.Bgzf.Reader.new F = .ok r0) (ops : List (Op σ))
+    (ok : ∀ op ∈ ops, OpOK o wf op) (hseek : ∀ f b, Op.seek f b ∈ ops → 0 ≤ f)
+    (hv : Hts.Spec.Flat.ValidOps (Hts.Model.Bgzf.layoutOf F) (ops.filterMap flatOp)) (outs : List Out)
+    (hr : outputs cfg o (ofB F) ops = .ok outs) :
+    outs = flatOuts (Hts.Model.Bgzf.flatOf F) Hts.Spec.Flat.init ops := by
+  have hu := cached_refines_uncached o wf ct cfg (Or.inr hcfg) (ofB F) (fileOK_ofB hwf 0) ops ok outs hr
+  have hp : ∀ op ∈ ops.map Op.uncached, Plain op := by
+    intro op hop
+    obtain ⟨op0, h1, h2⟩ := List.mem_map.1 hop
+    subst h2
+    exact plain_uncached op0 (fun f b e => hseek f b (e ▸ h1))
+  have hv' : Hts.Spec.Flat.ValidOps (Hts.Model.Bgzf.layoutOf F) ((ops.map Op.uncached).filterMap flatOp) := by
+    rw [filterMap_flatOp_uncached]; exact hv
+  have := uncached_baseline_refines_flat cfg hcfg o F hwf r0 h0 (ops.map Op.uncached) hp hv'
+  rw [hu, flatOuts_uncached] at this
+  exact (Except.ok.inj this)
+
+/-- … and it never panics or hangs: a cached run that does not return normally can only be one whose recorded
+Random victim the model rejects (`badHint`, an artefact of replaying recorded choices, not a behaviour of the code) -/
+theorem cached_never_faults (o : CacheOps σ) (wf : σ → Prop) (ct : Contract o wf) (cfg : Cfg)
+    (hcfg : cfg.failReset = true) (F : Hts.Model.Bgzf.File) (hwf : Hts.Model.Bgzf.WF F)
+    (r0 : Hts.Model.Bgzf.Reader) (h0 : Hts.Model.Bgzf.Reader.new F = .ok r0) (ops : List (Op σ))
+    (ok : ∀ op ∈ ops, OpOK o wf op) (hseek : ∀ f b, Op.seek f b ∈ ops → 0 ≤ f)
+    (hv : Hts.Spec.Flat.ValidOps (Hts.Model.Bgzf.layoutOf F) (ops.filterMap flatOp)) (e : Fault)
+    (hr : outputs cfg o (ofB F) ops = .error e) : e = .badHint := by
+  rcases cached_faults_only_as_uncached o wf ct cfg (Or.inr hcfg) (ofB F) (fileOK_ofB hwf 0) ops ok e hr with h | h
+  · exact h
+  · have hp : ∀ op ∈ ops.map Op.uncached, Plain op := by
+      intro op hop
+      obtain ⟨op0, h1, h2⟩ := List.mem_map.1 hop
+      subst h2
+      exact plain_uncached op0 (fun f b e => hseek f b (e ▸ h1))
+    have hv' : Hts.Spec.Flat.ValidOps (Hts.Model.Bgzf.layoutOf F) ((ops.map Op.uncached).filterMap flatOp) := by
+      rw [filterMap_flatOp_uncached]; exact hv
+    have := uncached_baseline_refines_flat cfg hcfg o F hwf r0 h0 (ops.map Op.uncached) hp hv'
+    rw [h] at this
+    cases this
+
+/-- `file3` as a C02 file -/
+def file3B : Hts.Model.Bgzf.File :=
+  [⟨[65, 65, 65, 65, 65, 65], 35⟩, ⟨[66, 66, 66, 66, 66, 66], 35⟩, ⟨[67, 67, 67, 67], 36⟩]
+
+example : ofB file3B = file3 := by decide
+
+/-- `cached_refines_flat` is not vacuous: its hypotheses hold for `file3` and the LRU(1) history `staleOps` (cache
+hits and an eviction), the cached run is `ok`, and what the flat specification prescribes is the literal list -/
+example : Hts.Model.Bgzf.WF file3B ∧ (∃ r0, Hts.Model.Bgzf.Reader.new file3B = .ok r0) ∧
+    (∀ f b, Op.seek f b ∈ staleOps → 0 ≤ f) ∧
+    Hts.Spec.Flat.ValidOps (Hts.Model.Bgzf.layoutOf file3B) (staleOps.filterMap flatOp) ∧
+    (flatOuts (Hts.Model.Bgzf.flatOf file3B) Hts.Spec.Flat.init staleOps).map (fun o => (o.bytes, o.err)) =
+      [([], .ok), ([], .ok), ([], .ok), ([], .eof), ([], .ok), ([], .ok), ([67, 67, 67], .ok), ([67], .eof),
+        ([], .eof)] ∧
+    bytesOf (outputs Cfg.repaired lruOps (ofB file3B) staleOps) =
+      (flatOuts (Hts.Model.Bgzf.flatOf file3B) Hts.Spec.Flat.init staleOps).map (fun o => (o.bytes, o.err)) := by
+  refine ⟨?_, ⟨_, rfl⟩, ?_, ?_, by decide, by decide⟩
+  · intro m hm
+    simp only [file3B, List.mem_cons, List.mem_nil_iff, or_false] at hm
+    rcases hm with h | h | h <;> subst h <;> decide
+  · intro f b h
+    simp only [staleOps, List.mem_cons, List.mem_nil_iff, or_false] at h
+    rcases h with h | h | h | h | h | h | h | h | h <;> cases h <;> decide
+  · have e : staleOps.filterMap flatOp =
+        [.seek ⟨35, 0⟩, .seek ⟨70, 4⟩, .read 1, .seek ⟨0, 0⟩, .seek ⟨70, 0⟩, .read 3, .read 3, .read 3] := rfl
+    rw [e]
+    simp [Hts.Spec.Flat.ValidOps, Hts.Spec.Flat.seekTarget, Hts.Model.Bgzf.layoutOf, file3B]
+
+end Flat
 
 /-! ### non-vacuity -/
 
